@@ -302,6 +302,36 @@ theorem C08_stream_transparent (ks : Nat → UInt8) (pos : Nat) (dw er : Nat) (b
   show (readAll ks ⟨er, pos, none⟩ rd src).1.flatten ++ _ = _
   rw [h1, hsrc, hwire, xorAt_xorAt]
 
+/-- **Transparency with errors on the read side.**  As `C08_stream_transparent`, but the
+    underlying connection may deliver bytes TOGETHER WITH an error at any point (the last
+    bytes with io.EOF, bytes with an expired deadline after which reading continues, any
+    other error; `esrc` attaches an optional error to every chunk) and the caller keeps
+    reading: the concatenation of ALL bytes returned, whatever error accompanied them,
+    followed by the decryption of what is still in flight, is exactly what was written, and
+    the receive keystream has advanced by exactly the bytes returned (it stays in sync for
+    every subsequent read). -/
+theorem C08_stream_transparent_err (ks : Nat → UInt8) (pos : Nat) (dw er : Nat) (bs : List Bytes)
+    (esrc : ESrc) (rd : List Nat)
+    (hsrc : esrc.bytes = (writeAll ks ⟨pos, dw, none⟩ bs []).2.2) :
+    ((readAllErr ks ⟨er, pos, none⟩ rd esrc).1.map (·.1)).flatten
+        ++ xorAt ks (readAllErr ks ⟨er, pos, none⟩ rd esrc).2.1.decPos
+            (readAllErr ks ⟨er, pos, none⟩ rd esrc).2.2.bytes
+      = bs.flatten ∧
+    (readAllErr ks ⟨er, pos, none⟩ rd esrc).2.1.decPos
+      = pos + ((readAllErr ks ⟨er, pos, none⟩ rd esrc).1.map (·.1)).flatten.length := by
+  have hw := writeAll_accepting ks ⟨pos, dw, none⟩ rfl bs
+  obtain ⟨h1, h2⟩ := readAllErr_spec ks ⟨er, pos, none⟩ rd esrc
+  refine ⟨?_, h2⟩
+  rw [h1, hsrc, hw, xorAt_xorAt]
+
+/-- in particular every prefix the caller has received so far is a prefix of the plaintext -/
+theorem C08_read_prefix_err (ks : Nat → UInt8) (pos : Nat) (bs : List Bytes) (esrc : ESrc) (rd : List Nat)
+    (hsrc : esrc.bytes = (writeAll ks ⟨pos, 0, none⟩ bs []).2.2) :
+    ((readAllErr ks ⟨0, pos, none⟩ rd esrc).1.map (·.1)).flatten
+      = bs.flatten.take ((readAllErr ks ⟨0, pos, none⟩ rd esrc).1.map (·.1)).flatten.length := by
+  have h := (C08_stream_transparent_err ks pos 0 0 bs esrc rd hsrc).1
+  rw [← h, List.take_left]
+
 /-- reading everything: the receiver obtains exactly the bytes the sender wrote -/
 theorem C08_stream_transparent_total (ks : Nat → UInt8) (pos : Nat) (bs : List Bytes) (src : Src)
     (rd : List Nat) (hsrc : src.flatten = (writeAll ks ⟨pos, 0, none⟩ bs []).2.2)
@@ -405,6 +435,10 @@ example : ∀ p f p' f', (negotiate true .mse (defaultOptions p f) (defaultOptio
 example : (writeAll (fun _ => 0) ⟨0, 0, none⟩ [List.replicate 70000 1] []).1 = [(70000, none)] := by
   rw [writeAll_accepting _ _ rfl]
   simp only [List.map_cons, List.map_nil, List.length_replicate]
+
+-- two bytes delivered together with an error (code 3) are decrypted and consume the keystream
+example : (readAllErr (fun i => UInt8.ofNat (i + 1)) ⟨0, 0, none⟩ [10, 10] [([1, 2], some 3), ([7], none)]).1
+    = [([1 ^^^ 1, 2 ^^^ 2], some 3), ([7 ^^^ 3], none)] := by decide
 
 -- a short underlying write (3 of 5 bytes, no error) is reported as ErrShortWrite and latched
 example : (write (fun _ => 0) ⟨0, 0, none⟩ [1, 2, 3, 4, 5] [⟨3, none⟩]).err = some .shortWrite ∧
